@@ -9,6 +9,9 @@ CTX = "crates/dns-resolver/src/context.rs"
 UTYPES = "crates/dns-resolver/src/util/types.rs"
 
 TRUSTED = TRUSTED_COMMON + [
+    "query_nameserver (forwarder): stand-in ASSUMED to answer with the alias chain in order (forwarding mode uses its replies unvalidated)",
+    "axiom_rr_vec_len: Vec<ResourceRecord>::len() <= isize::MAX (Rust allocation limit)",
+    "R32: resolve_forwarding_notimeout is verified in its synchronous reading (async / .await / #[async_recursion] removed)",
     "resolve_forwarding / resolve_recursive: stand-ins (async-recursive, network); their results are ASSUMED to satisfy the answer-chain clause that is proved for the local arm of `resolve`",
     "R30 drops `.instrument(tracing::..!(..))` (logging span around a future); R31 writes `Result::map(ResolvedRecord::from)` as the equivalent match",
     "Zones::resolve: assumed deterministic function of (zones, name, qtype) (`zones_resolve`); its lookup contract is proved in unit zone_lookup",
@@ -51,6 +54,8 @@ impl Zone {
     pub fn is_authoritative(&self) -> (r: bool) ensures r == (zone_soa_rr(*self) is Some) { unimplemented!() }
 }
 impl SharedCache {
+    #[verifier::external_body]
+    pub fn insert_all(&self, records: &[ResourceRecord]) { unimplemented!() }
     // the cache may return anything, but only records owned by the asked name (cache: SharedCache::get/post:lookup_returns_records_owned_by_the_asked_name)
     #[verifier::external_body]
     pub fn get(&self, name: &DomainName, qtype: QueryType) -> (r: Vec<ResourceRecord>)
@@ -65,6 +70,8 @@ impl Metrics {
     #[verifier::external_body] pub fn zoneresult_nameerror(&mut self, zone: &Zone) { unimplemented!() }
     #[verifier::external_body] pub fn cache_hit(&mut self) { unimplemented!() }
     #[verifier::external_body] pub fn cache_miss(&mut self) { unimplemented!() }
+    #[verifier::external_body] pub fn nameserver_hit(&mut self) { unimplemented!() }
+    #[verifier::external_body] pub fn nameserver_miss(&mut self) { unimplemented!() }
 }
 // the recursion limit: the capacity the question stack was created with
 pub uninterp spec fn ctx_limit<CT>(c: &Context<'_, CT>) -> nat;
@@ -163,6 +170,46 @@ proof { lemma_merged_step(old(priority)@, new@, idx); }"""},
         r is AuthoritativeNameError ==> lsr is Done && lsr->resolved is AuthoritativeNameError, // [C01:name_error_only_from_an_authoritative_zone]"""},
 }
 
+FORWARD_STANDINS = """
+// the forwarder: a recursive resolver elsewhere.  Its replies are used without validation (by design of forwarding mode); the chain
+// clause below is therefore proved RELATIVE to the assumption that the forwarder itself answers with the chain in order.
+#[verifier::external_body]
+pub fn query_nameserver(address: SocketAddr, question: Question, recursion_desired: bool) -> (r: Option<Message>)
+    ensures r is Some && question.qtype != QueryType::Wildcard ==> chain_ok(r->Some_0.answers@, question.name),
+{ unimplemented!() }
+#[verifier::external_body]
+pub fn get_nxdomain_nodata_soa<'a>(question: &Question, response: &'a Message, current_match_count: usize) -> (r: Option<&'a ResourceRecord>)
+{ unimplemented!() }
+"""
+
+FORWARD = {
+    "props": ["C10", "C01"],
+    # R32: the synchronous reading of an async fn: `async` and `.await` removed (the future owns `&mut context` for its whole life,
+    # everything it shares with other tasks is behind stand-ins without postconditions on shared state); #[async_recursion] dropped
+    "header_rewrites": [("R32", r"\basync fn\b", "fn")],
+    "rewrites": [("R30", r"\s*\.instrument\(tracing::\w+!\((?:[^()]|\([^()]*\))*\)\)", ""),
+                 ("R32", r"\s*\.await\b", "")],
+    "contract": """    requires old(context).wf(),
+    ensures
+        final(context).question_stack@ == old(context).question_stack@, same_env(old(context), final(context)), // [C10:question_stack_restored]
+        old(context).question_stack@.len() >= ctx_limit(old(context)) ==> r == Err::<ResolvedRecord, ResolutionError>(ResolutionError::RecursionLimit), // [C10:recursion_limit_ends_the_chain]
+        old(context).question_stack@.len() < ctx_limit(old(context)) && old(context).question_stack@.contains(*question)
+            ==> r == Err::<ResolvedRecord, ResolutionError>(ResolutionError::DuplicateQuestion { question: *question }), // [C10:alias_loop_ends_the_chain]
+        // C01: what an authoritative zone (or local records of the asked name and type) says is final: the forwarder's reply is not used
+        guards_pass(old(context), *question) && zr(old(context), *question) is Some && zr(old(context), *question)->Some_0.1 is Answer && zone_soa_rr(zr(old(context), *question)->Some_0.0) is Some ==>
+            r == Ok::<ResolvedRecord, ResolutionError>(ResolvedRecord::Authoritative { rrs: zr(old(context), *question)->Some_0.1->rrs, soa_rr: zone_soa_rr(zr(old(context), *question)->Some_0.0)->Some_0 }), // [C01:forwarding_authoritative_answer_from_the_zone_alone]
+        guards_pass(old(context), *question) && zr(old(context), *question) is Some && zr(old(context), *question)->Some_0.1 is NameError && zone_soa_rr(zr(old(context), *question)->Some_0.0) is Some ==>
+            r == Ok::<ResolvedRecord, ResolutionError>(ResolvedRecord::AuthoritativeNameError { soa_rr: zone_soa_rr(zr(old(context), *question)->Some_0.0)->Some_0 }), // [C01:forwarding_authoritative_name_error_from_the_zone_alone]
+        guards_pass(old(context), *question) && zr(old(context), *question) is Some && zr(old(context), *question)->Some_0.1 is Answer && zone_soa_rr(zr(old(context), *question)->Some_0.0) is None
+            && question.qtype != QueryType::Wildcard && zr(old(context), *question)->Some_0.1->rrs@.len() > 0 ==>
+            r == Ok::<ResolvedRecord, ResolutionError>(ResolvedRecord::NonAuthoritative { rrs: zr(old(context), *question)->Some_0.1->rrs, soa_rr: None }), // [C01:forwarding_local_records_returned_exactly]
+        r is Ok && r->Ok_0 is AuthoritativeNameError ==> guards_pass(old(context), *question) ==> zr(old(context), *question) is Some && zone_soa_rr(zr(old(context), *question)->Some_0.0) is Some, // [C01:forwarding_name_error_only_from_an_authoritative_zone]
+        // the local part of a chain comes first, in order, then what the forwarder supplied for the rest of the chain
+        question.qtype != QueryType::Wildcard && r is Ok ==> chain_ok(resolved_rrs(r->Ok_0), question.name), // [C10:forwarded_chain_in_order_from_the_question_name]
+    decreases ctx_limit(old(context)) - old(context).question_stack@.len(),""",
+    "entry": BU + " broadcast use group_chain, lemma_chain_concat_b, lemma_merged_nil_b, lemma_nil_concat_b, axiom_rr_vec_len;",
+}
+
 RESOLVE = {
     "props": ["C09", "C10"],
     "rewrites": [("R30", r"\s*\.instrument\(tracing::\w+!\((?:[^()]|\([^()]*\))*\)\)", ""),
@@ -215,6 +262,7 @@ RESOLVE_LOCAL = {
         // C10 / C09: what is handed back is the CNAME chain from the question name in order, then records owned by the final target
         question.qtype != QueryType::Wildcard && r is Ok && !(r->Ok_0 is Delegation) ==> chain_ok(result_rrs(r->Ok_0), question.name), // [C09,C10:chain_in_order_from_the_question_name]
         question.qtype != QueryType::Wildcard && r is Ok && r->Ok_0 is CNAME ==> chain_k(r->Ok_0->CNAME_rrs@, question.name, r->Ok_0->CNAME_rrs@.len() as int), // [C10:partial_chain_holds_aliases_only]
+        r is Ok && r->Ok_0 is Partial ==> question.qtype == QueryType::Wildcard, // [C10:partial_results_only_for_any_questions]
         // C10: the chain starts with the zone's CNAME record for the question name
         guards_pass(old(context), *question) && zr(old(context), *question) is Some && zr(old(context), *question)->Some_0.1 is CNAME ==>
             r is Ok && result_rrs(r->Ok_0).len() > 0 && result_rrs(r->Ok_0)[0] == zr(old(context), *question)->Some_0.1->rr, // [C10:chain_starts_at_the_question_name]
@@ -265,6 +313,36 @@ pub broadcast proof fn lemma_concat_last(a: Seq<ResourceRecord>, b: Seq<Resource
     requires b.len() > 0
     ensures (#[trigger] (a + b)).last() == b.last()
 {}
+// a pure alias chain a (from q, ending at target t) followed by a chain b from t is a chain from q
+pub proof fn lemma_chain_concat(a: Seq<ResourceRecord>, b: Seq<ResourceRecord>, q: DomainName, k: int)
+    requires a.len() > 0, chain_k(a, q, a.len() as int), chain_k(b, a.last().rtype_with_data->CNAME_cname, k)
+    ensures chain_k(a + b, q, a.len() + k), chain_ok(a + b, q)
+{
+    let f = a + b; let n = a.len() as int; let t = a.last().rtype_with_data->CNAME_cname;
+    assert forall|i: int| 0 <= i < n + k implies (#[trigger] f[i]).rtype_with_data is CNAME && f[i].name == reached(f, q, i) by {
+        if i < n { assert(f[i] == a[i]); if i > 0 { assert(f[i - 1] == a[i - 1]); } }
+        else { assert(f[i] == b[i - n]); assert(b[i - n].name == reached(b, t, i - n)); if i > n { assert(f[i - 1] == b[i - n - 1]); } else { assert(f[i - 1] == a[n - 1]); } }
+    }
+    assert forall|i: int| n + k <= i < f.len() implies (#[trigger] f[i]).name == reached(f, q, n + k) by {
+        assert(f[i] == b[i - n]); if k > 0 { assert(f[n + k - 1] == b[k - 1]); } else { assert(f[n - 1] == a[n - 1]); }
+    }
+    assert(chain_k(f, q, n + k));
+}
+pub broadcast proof fn lemma_chain_concat_b(a: Seq<ResourceRecord>, b: Seq<ResourceRecord>, q: DomainName, k: int)
+    requires a.len() > 0, #[trigger] chain_k(a, q, a.len() as int), #[trigger] chain_k(b, a.last().rtype_with_data->CNAME_cname, k)
+    ensures chain_ok(#[trigger] (a + b), q)
+{ lemma_chain_concat(a, b, q, k); }
+pub broadcast proof fn lemma_merged_nil_b(a: Seq<ResourceRecord>, b: Seq<ResourceRecord>)
+    requires a.len() == 0
+    ensures #[trigger] merged(a, b) == b
+{ assert(a =~= Seq::<ResourceRecord>::empty()); lemma_merged_empty(b); }
+pub broadcast proof fn lemma_nil_concat_b(a: Seq<ResourceRecord>, b: Seq<ResourceRecord>)
+    requires a.len() == 0
+    ensures #[trigger] (a + b) == b
+{ assert(a + b =~= b); }
+// Rust allocation limit: a Vec of a non-zero-sized type never holds more than isize::MAX elements (trusted)
+pub broadcast axiom fn axiom_rr_vec_len(v: Vec<ResourceRecord>)
+    ensures #[trigger] v@.len() <= 0x7fff_ffff_ffff_ffff;
 pub broadcast group group_chain { lemma_chain_cons_b, lemma_chain_intro_single, lemma_chain_intro_named, lemma_concat_last }
 pub open spec fn ends_at(rrs: Seq<ResourceRecord>, name: DomainName) -> bool {
     rrs.len() > 0 && rrs.last().rtype_with_data is CNAME && rrs.last().rtype_with_data->CNAME_cname == name
@@ -338,6 +416,12 @@ def build(G):
     G.item(F, "struct", "ForwardingContextInner")
     G.item(R, "struct", "RecursiveContextInner")
     G.item(LIB, "const", "RECURSION_LIMIT")
+    G.item(F, "type", "ForwardingContext")
+    G.raw(FORWARD_STANDINS, ("spec", "forwarder stand-ins"))
+    specs["ResolvedRecord::soa_rr"] = {"mode": "assume", "props": [], "contract": ""}
+    G.impl(U, "ResolvedRecord", ["soa_rr"], "ResolvedRecord::", specs)
+    specs["resolve_forwarding_notimeout"] = dict(FORWARD)
+    G.top_fn(F, "resolve_forwarding_notimeout", specs)
     G.raw(RESOLVE_STANDINS, ("spec", "resolver stand-ins"))
     specs["resolve"] = dict(RESOLVE, depub=True)
     G.top_fn(LIB, "resolve", specs)
@@ -345,6 +429,9 @@ def build(G):
 
 
 CANARIES = [
+    {"name": "forwarding_asks_upstream_despite_local_answer", "file": "crates/dns-resolver/src/forwarding.rs", "old": "Ok(LocalResolutionResult::Done { resolved }) => return Ok(resolved),", "new": "Ok(LocalResolutionResult::Done { resolved }) => combined_rrs = resolved.rrs(),"},
+    {"name": "forwarding_chain_tail_first", "file": "crates/dns-resolver/src/forwarding.rs", "old": "                    combined_rrs.append(&mut rrs);\n                    combined_rrs.append(&mut r_rrs);", "new": "                    combined_rrs.append(&mut r_rrs);\n                    combined_rrs.append(&mut rrs);"},
+    {"name": "forwarding_forgets_the_loop_guard", "file": "crates/dns-resolver/src/forwarding.rs", "old": "            context.push_question(question);\n            let answer = match resolve_forwarding_notimeout", "new": "            let answer = match resolve_forwarding_notimeout"},
     {"name": "referral_records_returned_as_answer", "file": LOCAL, "old": "                ResolvedRecord::Delegation { ns_rrs: rrs }", "new": "                ResolvedRecord::NonAuthoritative { rrs, soa_rr: None }"},
     {"name": "cached_chain_put_before_its_alias", "file": LOCAL, "old": "                    Ok(LocalResolutionResult::Partial { mut rrs }) => {\n                        rrs_from_cache.append(&mut rrs);", "new": "                    Ok(LocalResolutionResult::Partial { mut rrs }) => {\n                        rrs.append(&mut rrs_from_cache);\n                        rrs_from_cache = rrs;"},
     {"name": "zone_alias_dropped_from_partial_chain", "file": LOCAL, "old": "                        tracing::trace!(\"got partial cname answer\");\n                        rrs.append(&mut cname_rrs);\n                        LocalResolutionResult::Partial { rrs }", "new": "                        tracing::trace!(\"got partial cname answer\");\n                        LocalResolutionResult::Partial { rrs: cname_rrs }"},
